@@ -1992,7 +1992,7 @@ def generate(prop, run_seed, tier='quick', tolerate=frozenset()):
     spam = None
     if prop == 'C07':
         r_spam = crng.random()
-        if r_spam < .01 or (tier == 'thorough' and r_spam < .01005):
+        if r_spam < .01 or (tier == 'thorough' and r_spam < .011):
             # a long life: very many add_processor calls somewhere in the
             # middle of the history
             spam = ['spam_add', 2 ** 20 + 3 if r_spam >= .01
